@@ -34,6 +34,9 @@ ASSUMPTIONS = [
 from .common_node import clock_sources
 
 
+from .common_node import wake_fail
+
+
 def run(ctx: Ctx):
     model = ctx.model
     nc = model.cls("node.node", "Node")
@@ -75,9 +78,18 @@ def run(ctx: Ctx):
     else:
         recv = A.dotted([t for t in dr[0].stores() if isinstance(t, ast.Attribute)][0].value)
         facts = must_facts(g, at, dr[0])
-        others = [x for x in facts if x[0] != recv]
+        # the one condition besides "the peer is known": the connection is the peer's own (the
+        # DPR of another connection that merely names the peer says nothing about the peer's)
+        own = [x for x in facts if (x[0] == f"{recv}.connection" and x[1] == "is-expr" and x[2] == conn and x[3] is True)
+               or (x[1] == "==x" and {x[0], x[2]} == {f"{recv}.connection", conn} and x[3] is True)]
+        others = [x for x in facts if x[0] != recv and x not in own]
         if others:
             probs.append(f"the DPR reason is only recorded under {others}")
+        if not own:
+            probs.append(f"the DPR reason is recorded on the peer although the connection is not known to be "
+                         f"the peer's own (`{recv}.connection is {conn}`): a DPR on a second connection that "
+                         f"merely names the peer marks the peer as disconnected by DPR, and the loss of its "
+                         f"own connection is then never followed by a redial")
         pdef = [n for n in g.nodes if n.kind == "stmt" and any(
             isinstance(t, ast.Name) and t.id == recv for t in n.stores())]
         if not pdef or not A.call_name(pdef[0].ast.value).endswith("_find_connection_peer"):
@@ -106,7 +118,7 @@ def run(ctx: Ctx):
             ctx.fail(cons, f.loc(), "a DPA does not wake the I/O loop (demand_attention): the "
                      "connection is only closed at the next unrelated wake-up")
         elif not g.always_followed(st[0], att, exits=[g.exit]):
-            ctx.fail(cons + "#publish-then-signal", g.loc(st[0]), "the I/O loop is woken before the "
+            wake_fail(ctx, cons + "#publish-then-signal", g.loc(st[0]), "the I/O loop is woken before the "
                      "connection is put into PEER_CLOSING (no wake-up follows the state store): if "
                      "the node thread handles the wake-up in that gap it still sees DISCONNECTING, "
                      "does nothing, and nobody signals again - the connection lingers until the "
